@@ -27,6 +27,9 @@ const (
 
 // measureDecode returns the bytes allocated by one Decode call (runtime.MemStats.TotalAlloc delta)
 func measureDecode(t reflect.Type, data []byte) (alloc uint64, class string) {
+	if len(data) <= 2048 {
+		crumb("C05: Decode into " + t.Name() + " of " + hx(data))
+	}
 	tgt := reflect.New(t)
 	r := bytes.NewReader(data)
 	var m0, m1 runtime.MemStats
@@ -61,7 +64,7 @@ func runC05(r *Result, d *drv.Driver, tier string, seed int64, replay string) {
 	if tier == "thorough" {
 		nValid = 600
 	}
-	r.Rule = fmt.Sprintf("per-call allocation (runtime.MemStats.TotalAlloc delta) of the real Decode on: valid messages; every item position of every message (string, bytes, structure, skipped, fixed) with its declared length replaced by each of {0, 1, 2^16, 2^20, 2^30, 2^31, 2^32-8, 2^32-1}, with and without truncating the input right after that header, the same lie under another item type (structure / text / bytes), and the same with every enclosing structure's length inflated consistently (so the lying item fits its parents); long values lying about their length while backed by 4-12 KiB of real payload; random mutations; honest messages of 64 KiB, 512 KiB and 4 MiB (long byte string, long text string, long run of items) whose per-byte cost must not grow with their size (<= 4x the 64 KiB value + 8). "+
+	r.Rule = fmt.Sprintf("per-call allocation (runtime.MemStats.TotalAlloc delta) of the real Decode on: valid messages; every item position of every message (string, bytes, structure, skipped, fixed) with its declared length replaced by each of {0, 1, 2^16, 2^20, 2^30, 2^31, 2^32-8, 2^32-1}, with and without truncating the input right after that header, the same lie under another item type (structure / text / bytes), every Integer / Enumeration value (counts such as Batch Count) set to 2^16 / 2^20 / 2^22, and the same with every enclosing structure's length inflated consistently (so the lying item fits its parents); long values lying about their length while backed by 4-12 KiB of real payload; random mutations; honest messages of 64 KiB, 512 KiB and 4 MiB (long byte string, long text string, long run of items) whose per-byte cost must not grow with their size (<= 4x the 64 KiB value + 8). "+
 		"Violation: allocation > %d x input length + %d bytes (the model's linear bound with A = %d). distinct = distinct input; non-trivial = carries a hostile length", allocA, allocB, allocA)
 	types := allDecodeTypes()
 	g := gen.New(seed)
@@ -71,6 +74,18 @@ func runC05(r *Result, d *drv.Driver, tier string, seed int64, replay string) {
 	for _, in := range inputs[:nValid] {
 		nodes := mut.All(mut.Parse(in.data))
 		for _, nd := range nodes {
+			// counts are untrusted too: every Integer / Enumeration VALUE (Batch Count, Located Items, lengths and indices inside
+			// payloads) set to a large number, the rest of the message left as it is, and cut right behind the next item header
+			if (nd.Typ == 2 || nd.Typ == 5) && nd.Len == 4 {
+				for _, hv := range []uint32{1 << 16, 1 << 20, 1 << 22} {
+					b := append([]byte(nil), in.data...)
+					binary.BigEndian.PutUint32(b[nd.Off+8:], hv)
+					inputs = append(inputs, decInput{typ: in.typ, data: b, origin: "hostile-value:count"})
+					if cut := nd.End + 8; cut < len(b) {
+						inputs = append(inputs, decInput{typ: in.typ, data: b[:cut], origin: "hostile-value-cut:count"})
+					}
+				}
+			}
 			for _, hl := range hostileLens {
 				b := append([]byte(nil), in.data...)
 				binary.BigEndian.PutUint32(b[nd.Off+4:], hl)
